@@ -193,6 +193,53 @@ def check_case(case):
                 r.require(same_set(om0, ow, 1e-7), tk + ":agree0w", "wedge solver agrees with find_omega at zero wedge", list(map(float, om0)), list(map(float, ow)))
             if w != 0 or len(ow) == 2:
                 r.nontrivial.add("wedge:%g:%g:%d" % (tthd, w, len(ow)))
+    # near-tangency band: g chosen so that the relative discriminant of the untilted equation is +-1e-5 ... +-1e-2 (the count
+    # claim excludes only |rel| <= 1e-6); every solver is run at zero and at small tilts on these vectors
+    for delta in (1e-5, -1e-5, 1e-4, -1e-4, 1e-3, -1e-3, 1e-2, -1e-2, 3e-2):
+        for phi in (0.3, 2.0, 4.4):
+            for sgn in (1.0, -1.0):
+                z2 = math.cos(tth / 2) ** 2 - delta
+                if not 0 <= z2 <= 1:
+                    continue
+                z = sgn * math.sqrt(z2)
+                rho = math.sqrt(1 - z2)
+                g = st * np.array([rho * math.cos(phi), rho * math.sin(phi), z])
+                gin = g * scale
+                base = "%s:tth=%g:band(delta=%g,phi=%g,z%+d)" % (mname, tthd, delta, phi, int(sgn))
+                om0 = list(mod.find_omega(gin, tth))
+                key = base + ":find_omega"
+                for o in om0:
+                    gt = Rz(float(o)) @ g
+                    r.check("find_omega", abs(gt[0] + st * st) / st, 1e-9, key + ":cond", "diffraction condition (near tangency)")
+                e0 = expected_count((1.0, 0.0, 0.0), g, st)
+                if e0 is not None:
+                    r.require(len(om0) == e0, key + ":count", "number of solutions (complete answer) near tangency", e0, len(om0))
+                for wx, wy in ((0.0, 0.0), (0.01, 0.0), (0.0, -0.01), (0.003, 0.004)):
+                    Rm = Rx(wx) @ Ry(wy)
+                    tk = "%s:chi=%g:wedge=%g" % (base, wx, wy)
+                    og, eg = mod.find_omega_general(gin, tth, wx, wy)
+                    eg_ = expected_count(Rm[0], g, st)
+                    if eg_ is not None:
+                        r.require(len(og) == eg_, tk + ":general:count", "number of solutions near tangency", eg_, len(og))
+                    for o, e in zip(og, eg):
+                        gt = mod.form_omega_mat_general(float(o), wx, wy) @ g
+                        r.check("find_omega_general", float(np.max(np.abs(gt - target(tth, float(e))))) / st, 1e-9, tk + ":general:cond", "diffraction condition (near tangency)")
+                    oq, eq = mod.find_omega_quart(gin, tth, wx, wy)
+                    eq_ = expected_count(Rm[0], Rm.T @ g, st)
+                    if eq_ is not None:
+                        r.require(len(oq) == eq_, tk + ":quart:count", "number of solutions near tangency", eq_, len(oq))
+                    for o, e in zip(oq, eq):
+                        gt = mod.quart_to_omega(math.degrees(float(o)), wx, wy) @ g
+                        r.check("find_omega_quart", float(np.max(np.abs(gt - target(tth, float(e))))) / st, 1e-9, tk + ":quart:cond", "diffraction condition (near tangency)")
+                    if wx == 0:
+                        ow, ew = mod.find_omega_wedge(gin, tth, -wy)
+                        ew_ = expected_count(Ry(wy)[0], g, st)
+                        if ew_ is not None:
+                            r.require(len(ow) == ew_, tk + ":wedge:count", "number of solutions near tangency", ew_, len(ow))
+                        for o, e in zip(ow, ew):
+                            gt = Ry(wy) @ Rz(float(o)) @ g
+                            r.check("find_omega_wedge", float(np.max(np.abs(gt - target(tth, float(e))))) / st, 1e-8, tk + ":wedge:cond", "diffraction condition (near tangency)")
+                r.nontrivial.add("band:%g:%g:%g" % (tthd, delta, phi))
     r.states = len(dirs) * (len(tilts) ** 2 + len(tilts) + 1)
     r.transitions = r.states * 2
     return r
